@@ -417,8 +417,10 @@ func (r *transport) serveFromCache(
 			Freshness: freshness,
 		}
 	})
-	if freshness.IsStale {
-		// Served although stale (only-if-cached): say so.
+	// The staleness flag is relaxed when the request tolerates staleness (max-stale); the status
+	// still has to say that what is served is past its freshness lifetime.
+	if freshness.IsStale || freshness.Age.Value >= freshness.UsefulLife {
+		// Served although stale (only-if-cached, max-stale): say so.
 		internal.CacheStatusStale.ApplyTo(stored.Data.Header)
 		r.logger.LogCacheStale(req, urlKey, misc)
 	} else {
